@@ -153,6 +153,9 @@ func localBool(name string) bool { return true }
 // arg: in a `//@ callsite f: e` assertion, the i-th argument of the call to f.
 func arg[T any](i int) T { var z T; return z }
 
+// recv: in a `//@ callsite x.M: e` assertion, the receiver value of the method call.
+func recv[T any]() T { var z T; return z }
+
 // identical: a and b are the same value (for strings, a sufficient condition for a == b that
 // keeps uninterpreted spec functions congruent).
 func identical(a, b any) bool { return reflect.DeepEqual(a, b) }
